@@ -76,8 +76,21 @@ def gen_table(variant):
     return T
 
 
+def batch_table():
+    """variant 2: the N-row forms of the array arguments (several samples / quaternions / angle triples / matrices at once)"""
+    T = gen_table(0)
+    Q3 = np.array([g_unit(U1), g_unit(U2), g_unit((2, -1, 0, 3))])
+    ang = T["angles"]
+    T.update({"q": Q3 * 2.0, "p": Q3[::-1] * 0.5, "q1": Q3.copy(), "q2": Q3[::-1].copy(), "quaternion": Q3.copy(),
+              "angles": np.array([ang, 0.5 * ang]), "dcm": T["DCM"], "R": T["DCM"], "R1": T["DCM"], "R2": T["DCM"][::-1].copy(), "C": T["DCM"],
+              "acc": np.array([T["acc"], T["acc"] * 0.7 + 0.1, T["acc"][::-1].copy()]), "mag": np.array([T["mag"], T["mag"] * 1.2 - 3.0, T["mag"][::-1].copy()]),
+              "a": np.array([T["acc"], T["acc"] * 0.7 + 0.1]), "m": np.array([T["mag"], T["mag"] * 1.2 - 3.0]),
+              "v": np.array([T["v"], 2.0 * T["v"]]), "x": np.array([T["x"], T["y"]]), "y": np.array([T["y"], T["x"]])})
+    return T
+
+
 def synth(fn, variant, skip_first=0):
-    T = gen_table(variant)
+    T = gen_table(variant) if variant < 2 else batch_table()
     try:
         sig = inspect.signature(fn)
     except (TypeError, ValueError):
@@ -204,6 +217,12 @@ def catalogue():
                 if mname == "metrics" and "x" in args and "y" in args:
                     pass
                 items.append(("%s.%s[%d]" % (mname, name, variant), (lambda a, fn=fn: fn(**a)), args))
+            # the N-row forms of the arguments, where the function accepts them (a function that refuses them is not listed)
+            args2 = synth(fn, 2)
+            if args2 is not None and any(isinstance(v, np.ndarray) and v.ndim >= 2 for v in args2.values()):
+                probe = core.outcome(lambda: fn(**{k: (v.copy() if isinstance(v, np.ndarray) else v) for k, v in args2.items()}))
+                if probe[0] == "ok":
+                    items.append(("%s.%s[N-row arguments]" % (mname, name), (lambda a, fn=fn: fn(**a)), args2))
             # N-row form of the functions that have one
             if mname == "metrics" and name in ("chordal", "qdist", "qeip", "qcip", "qad"):
                 T0 = gen_table(0)
@@ -220,7 +239,7 @@ def catalogue():
             items.append(("frames.%s%s" % (name, "[%d]" % variant if variant else ""), (lambda a, fn=fn: fn(**a)) if args is not None else None, args))
     # classes: constructor + every public method / property
     T0 = gen_table(0)
-    ctor = {"Quaternion": (QUA.Quaternion, {"q": T0["q"] * 2.0}), "QuaternionArray": (QUA.QuaternionArray, {"q": T0["Angles"][:, :0].copy() if False else np.array([g_unit(U1), g_unit(U2), g_unit((2, -1, 0, 3))]) * 2.0}),
+    ctor = {"Quaternion": (QUA.Quaternion, {"q": T0["q"] * 2.0}), "QuaternionArray": (QUA.QuaternionArray, {"q": np.array([g_unit(U1), -g_unit((30, 10, -20, 11)), g_unit(U2), g_unit((2, -1, 0, 3))]) * 2.0}),      # rows 1-2: a sign jump
             "DCM": (DCMM.DCM, {"array": T0["R1"]})}
     for cname, (cls, cargs) in ctor.items():
         items.append(("%s()" % cname, (lambda a, cls=cls: np.asarray(cls(**a))), cargs))
